@@ -463,7 +463,8 @@ def _pp_build(v, val, pp, ev, Raised, hooks):
 
         def action(s_, l_, t_):
             v2 = dict(val)
-            for p_, x in zip(params, (s_, l_, t_)):
+            # pyparsing hands the last len(params) of (s, loc, toks)
+            for p_, x in zip(params, (s_, l_, t_)[3 - len(params):]):
                 v2[p_] = x
             return ev(body, v2, hooks)
         base.setParseAction(action)
